@@ -6,6 +6,7 @@ package jobconfigcontroller
 
 // failed syncs of this reconciler are requeued without limit (C20)
 //@ func Reconciler.MaxRequeues
+//@   params w
 //@   ensures [C20] unlimited-requeues: result == -1
 
 // ---- util.go (C15) ------------------------------------------------------------------------------------------------------------
@@ -14,6 +15,7 @@ package jobconfigcontroller
 
 // exactly the items satisfying the filter, each once, and the input list is left as it was
 //@ func FilterJobs
+//@   params items, filterFunc
 //@   tags C15
 //@   requires distinctJobs(items)
 //@   fresh result
@@ -33,6 +35,7 @@ package jobconfigcontroller
 
 // one reference per Job and one Job per reference
 //@ func ToJobReferences
+//@   params items
 //@   tags C15
 //@   requires forall i int :: 0 <= i && i < len(items) ==> items[i] != nil
 //@   fresh result
@@ -82,6 +85,7 @@ package jobconfigcontroller
 //@     execution.optNs(st.LastScheduled) >= execution.optNs(rjc.Status.LastScheduled) && execution.optNs(st.LastExecuted) >= execution.optNs(rjc.Status.LastExecuted)
 
 //@ func Reconciler.listJobsForJobConfig
+//@   params w, rjc
 //@   tags C15
 //@   requires rjc != nil
 //@   fresh result0
@@ -92,6 +96,7 @@ package jobconfigcontroller
 
 // One sync of a JobConfig (namespace, name): c is the cached JobConfig, (c.Namespace, c.UID) select its Jobs in the Job cache.
 //@ func Reconciler.SyncOne
+//@   params w, ctx, namespace, name, arg3
 //@   tags C15, C20
 //@   modifies jcwN, jcwObj, jcwOK
 //@   loop 1 invariant true
@@ -132,6 +137,7 @@ package jobconfigcontroller
 //@   ensures result1 != nil ==> result0 == nil && ownerOf(rj) == nil
 
 //@ func InformerWorker.enqueueObject
+//@   params w, obj
 //@   tags C15
 //@   requires w != nil
 //@   modifies addN, addKey
@@ -140,6 +146,7 @@ package jobconfigcontroller
 //@   ensures [C15] at-most-one: addN == old(addN) || addN == old(addN) + 1
 
 //@ func InformerWorker.handleJob
+//@   params w, obj
 //@   tags C15
 //@   requires w != nil
 //@   modifies addN, addKey
@@ -152,6 +159,7 @@ package jobconfigcontroller
 // NOT EXPRESSED: that the function values stored in the registered handler structs are these closures (function values are
 // opaque to the verifier); the contract on NewInformerWorker below only says that all six handlers are set.
 //@ func NewInformerWorker$1
+//@   params arg0, newObj
 //@   tags C15
 //@   requires w != nil
 //@   modifies addN, addKey
@@ -160,6 +168,7 @@ package jobconfigcontroller
 //@   ensures [C15] at-most-one: addN == old(addN) || addN == old(addN) + 1
 
 //@ func NewInformerWorker$2
+//@   params arg0, newObj
 //@   tags C15
 //@   requires w != nil
 //@   modifies addN, addKey
@@ -168,6 +177,7 @@ package jobconfigcontroller
 //@   ensures [C15] at-most-one: addN == old(addN) || addN == old(addN) + 1
 
 //@ func NewInformerWorker
+//@   params ctrlContext
 //@   tags C15
 //@   requires ctrlContext != nil
 //@   modifies regN, regHandler
